@@ -367,7 +367,7 @@ def main(modname):
             "forks": res.forks, "max_path_len": res.max_path_len, "cpu_s": round(res.cpu_s, 1),
             "numpy_calls_delegated_concretely": res.delegated,
             "canaries": canary_log,
-            "per_job": [dict(cfg={k: v for k, v in cfgs[i].items() if k != "graph"}, **res.per_job.get(i, {})) for i in range(len(cfgs))],
+            "per_job": [dict(cfg={k: v for k, v in cfgs[i].items() if not (k == "graph" and isinstance(v, list))}, **res.per_job.get(i, {})) for i in range(len(cfgs))],
             "known_findings_witnessed": sorted(kf_seen),
             "stubs": getattr(mod, "STUBS", []),
             "status": status,
